@@ -6,6 +6,7 @@ A property module (vf/props/Cxx.py) exposes
 A Part is either enumerated (cases = list of JSON specs) or generated (strategy = hypothesis
 strategy producing JSON specs); `run(spec)` returns an Outcome.
 """
+import copy
 import hashlib
 import json
 import multiprocessing as mp
@@ -105,7 +106,8 @@ def safe_run(part, spec):
         signal.signal(signal.SIGALRM, _alarm)
         signal.setitimer(signal.ITIMER_REAL, part.timeout)
     try:
-        o = part.run(spec)
+        # (the run functions may fill in derived keys; the replay file must hold the generated spec)
+        o = part.run(copy.deepcopy(spec))
     except CaseTimeout:
         o = Outcome()
         o.inconclusive = "timeout>%ss" % part.timeout
@@ -342,7 +344,7 @@ def write_replay(pid, part, sig, spec, detail, seed, tag=""):
     path = os.path.join(d, "%s-%s-%s%s.json" % (pid, safe, seed, tag))
     with open(path, "w") as f:
         json.dump({"property": pid, "part": part, "signature": sig, "detail": detail, "spec": spec},
-                  f, indent=1, sort_keys=True, default=str)
+                  f, indent=1, default=str)
     return path
 
 
@@ -431,7 +433,7 @@ def run_check(pid, tier, seed, only_part=None):
         safe = "".join(c if c.isalnum() else "_" for c in reason)[:60]
         with open(os.path.join(incd, "%s-%s.json" % (pid, safe)), "w") as f:
             json.dump({"property": pid, "part": ex["part"], "signature": reason, "spec": ex["spec"],
-                       "classes": ex["classes"]}, f, indent=1, sort_keys=True, default=str)
+                       "classes": ex["classes"]}, f, indent=1, default=str)
 
     # 4. evidence
     distinct = len(set(d["nontrivial_hashes"]))
